@@ -843,10 +843,11 @@ def seqE {α : Type} (f : State → α → State × Option Err) : State → List
     | (s1, some e) => (s1, some e)
     | (s1, none) => seqE f s1 xs
 
-/-- `reloadImages / reloadData` for one name -/
+/-- `reloadImages / reloadData` for one name (after fix C05-r3-2: a pending deletion of the name is
+dropped — it concerned the file that the one taken over now has replaced) -/
 def reloadFile (img : Bool) (s : State) (n : String) : State × Option Err :=
   let fs := getFS s img
-  let s1 := setFS s img { fs with entries := AL.set fs.entries n ({} : Entry) }
+  let s1 := setFS s img { entries := AL.set fs.entries n ({} : Entry), sched := AL.erase fs.sched n }
   match fsLoad s1 img n with
   | .error e => (s1, some e)
   | .ok (s2, _) => (s2, none)
